@@ -744,6 +744,7 @@ def main(ctx, replay):
         raise RuntimeError("dispatch-real failed: " + err[-2000:])
     REAL = {"ok": (0, 204), "e503": (0, 503), "e404": (0, 404), "e429": (0, 429), "redirect_not_followed_302": (0, 302),
             "hang": (2, 0), "refused": (1, 0), "policy_https_only": (4, 0),
+            "policy_https_only_unloadable_signing_secret": (4, 0), "policy_https_only_no_valid_secret_version": (4, 0),
             "e503_retry_after_90": (0, 503), "e429_retry_after_3600": (0, 429), "e503_retry_after_date": (0, 503), "e500_retry_after_120": (0, 500)}
     for r in json.loads(out):
         evaluations += 1
